@@ -319,8 +319,12 @@ func c12xOps() []c12xOp {
 		{"Reader", func(in hybridqp.QueryNode, s hybridqp.Catalog) hybridqp.QueryNode { return NewLogicalReader(in, s) }},
 		{"TagSubset", func(in hybridqp.QueryNode, s hybridqp.Catalog) hybridqp.QueryNode { return NewLogicalTagSubset(in, s) }},
 		{"Aggregate", func(in hybridqp.QueryNode, s hybridqp.Catalog) hybridqp.QueryNode { return NewLogicalAggregate(in, s) }},
-		{"CountDistinct", func(in hybridqp.QueryNode, s hybridqp.Catalog) hybridqp.QueryNode { return NewCountDistinctAggregate(in, s) }},
-		{"TagSetAggregate", func(in hybridqp.QueryNode, s hybridqp.Catalog) hybridqp.QueryNode { return NewLogicalTagSetAggregate(in, s) }},
+		{"CountDistinct", func(in hybridqp.QueryNode, s hybridqp.Catalog) hybridqp.QueryNode {
+			return NewCountDistinctAggregate(in, s)
+		}},
+		{"TagSetAggregate", func(in hybridqp.QueryNode, s hybridqp.Catalog) hybridqp.QueryNode {
+			return NewLogicalTagSetAggregate(in, s)
+		}},
 		{"Merge1", func(in hybridqp.QueryNode, s hybridqp.Catalog) hybridqp.QueryNode {
 			return NewLogicalMerge([]hybridqp.QueryNode{in}, s)
 		}},
@@ -336,9 +340,15 @@ func c12xOps() []c12xOp {
 		{"Align", func(in hybridqp.QueryNode, s hybridqp.Catalog) hybridqp.QueryNode { return NewLogicalAlign(in, s) }},
 		{"Project", func(in hybridqp.QueryNode, s hybridqp.Catalog) hybridqp.QueryNode { return NewLogicalProject(in, s) }},
 		{"Filter", func(in hybridqp.QueryNode, s hybridqp.Catalog) hybridqp.QueryNode { return NewLogicalFilter(in, s) }},
-		{"SlidingWindow", func(in hybridqp.QueryNode, s hybridqp.Catalog) hybridqp.QueryNode { return NewLogicalSlidingWindow(in, s) }},
-		{"SparseIndexScan", func(in hybridqp.QueryNode, s hybridqp.Catalog) hybridqp.QueryNode { return NewLogicalSparseIndexScan(in, s) }},
-		{"ColumnStoreReader", func(in hybridqp.QueryNode, s hybridqp.Catalog) hybridqp.QueryNode { return NewLogicalColumnStoreReader(in, s) }},
+		{"SlidingWindow", func(in hybridqp.QueryNode, s hybridqp.Catalog) hybridqp.QueryNode {
+			return NewLogicalSlidingWindow(in, s)
+		}},
+		{"SparseIndexScan", func(in hybridqp.QueryNode, s hybridqp.Catalog) hybridqp.QueryNode {
+			return NewLogicalSparseIndexScan(in, s)
+		}},
+		{"ColumnStoreReader", func(in hybridqp.QueryNode, s hybridqp.Catalog) hybridqp.QueryNode {
+			return NewLogicalColumnStoreReader(in, s)
+		}},
 		{"OrderBy", func(in hybridqp.QueryNode, s hybridqp.Catalog) hybridqp.QueryNode { return NewLogicalOrderBy(in, s) }},
 		{"GroupBy", func(in hybridqp.QueryNode, s hybridqp.Catalog) hybridqp.QueryNode { return NewLogicalGroupBy(in, s) }},
 		{"SubQuery", func(in hybridqp.QueryNode, s hybridqp.Catalog) hybridqp.QueryNode { return NewLogicalSubQuery(in, s) }},
